@@ -27,6 +27,7 @@ namespace
         std::atomic<bool> saw_eagain { false };
         std::atomic<bool> released { false };
         std::atomic<bool> shrunk { false };
+        std::atomic<int> big_handled { 0 }; // /big requests that have reached the handler
     } g_pol;
 
     ssize_t send_hook(int fd, const void* buf, size_t len, int flags)
@@ -60,6 +61,7 @@ namespace
                 int idx   = atoi(r.substr(5, p1 - 5).c_str());
                 size_t n  = strtoul(r.substr(p1 + 1).c_str(), nullptr, 10);
                 g_pol.target_fd = w.peer()->fd();
+                ++g_pol.big_handled;
                 std::string body(n, char('a' + idx));
                 w.send(Http::Code::Ok, body);
             }
@@ -210,7 +212,12 @@ namespace verif
             net::sleep_ms(int(wait * 1000));
         for (unsigned i = 0; i < k; ++i)
         {
+            // one request per read: the next one is written when this one has reached its handler (two requests found in
+            // one read are outside the domain - the server keeps the first only; a fixed pause is not enough on a loaded
+            // machine, see Appendix A)
+            int before = g_pol.big_handled.load();
             net::send_all(a, "GET /big/" + std::to_string(i) + "/" + std::to_string(sizes[i]) + " HTTP/1.1\r\nHost: x\r\n\r\n");
+            net::wait_for([&] { return g_pol.big_handled.load() > before; }, 3000, 1);
             net::sleep_ms(20);
         }
         double rel = t0 + stall - net::now_s();
